@@ -1,4 +1,4 @@
-import DirectVerif.Lemmas.C15Safe
+import DirectVerif.Lemmas.C15Wf
 import DirectVerif.Lemmas.C16
 /-!
 # Histories of interrupted training processes keep the experiment directory consistent — no Mathlib
@@ -15,6 +15,7 @@ empty gradients (any `gradient_steps = k`) -/
 structure Run.Ok (r : Run P O G B L Sc) : Prop where
   table : r.table = loopTable
   label : r.killLabel = Train.killLabel
+  save : wfSave r.saveTbl = true     -- any well-formed save routine
   codec : ∀ c, r.decode (r.encode c).flatten = some c
   init : r.init.grad = r.ops.zero
 
@@ -55,7 +56,7 @@ theorem restore_snapshot (zero : G) (s : St P O G Sc) (h : s.grad = zero) : rest
 
 theorem Run.inv_save (r : Run P O G B L Sc) (h : r.Ok) (d : Dir) (t : Nat) (ht : t + 1 ≤ r.total) :
     r.Inv (r.save d t (snapshot (r.U (t + 1)))) :=
-  Or.inr ⟨t, ht, save_then_load r.decode d t _ _ (h.codec _)⟩
+  Or.inr ⟨t, ht, save_then_load_of_wf r.decode r.saveTbl h.save d t _ _ (h.codec _)⟩
 
 theorem Run.loop_inv (r : Run P O G B L Sc) (h : r.Ok) (stop : Stop) (fuel it : Nat) (d : Dir)
     (hd : r.Inv d) : r.Inv (r.loop stop fuel it (r.U it) d).2 := by
@@ -86,8 +87,8 @@ theorem Run.loop_inv (r : Run P O G B L Sc) (h : r.Ok) (stop : Stop) (fuel it : 
             simp only
             by_cases hj : j = it
             · rw [if_pos hj]
-              have := crash_safe_step r.decode d it (r.encode (snapshot (r.U (it + 1)))) _ (h.codec _) _
-                (crashAt_crashOf (saveOps it (r.encode (snapshot (r.U (it + 1))))) n m)
+              have := crash_safe_of_wf r.decode r.saveTbl h.save d it (r.encode (snapshot (r.U (it + 1)))) _ (h.codec _) _
+                (crashAt_crashOf (opsOf r.saveTbl it (r.encode (snapshot (r.U (it + 1))))) n m)
               rcases this with e | e
               · unfold Run.Inv; rw [e]; exact hd
               · exact Or.inr ⟨it, by omega, e⟩
@@ -185,6 +186,6 @@ theorem Run.latest_after_kill (r : Run P O G B L Sc) (h : r.Ok) (fuel j : Nat) (
   have hl : r.killLabel (j : Int) = ((j - 1 : Nat) : Int) := by
     rw [h.label]; unfold Train.killLabel; omega
   rw [hl]
-  exact save_then_load r.decode d (j - 1) _ _ (h.codec _)
+  exact save_then_load_of_wf r.decode r.saveTbl h.save d (j - 1) _ _ (h.codec _)
 
 end DirectVerif.Train
